@@ -1,7 +1,7 @@
 (* C20: start-up configuration model entry points.
    cfkey <v1 v2 v3> <hex>                       -> code
    cfval <v1 v2 v3> | <11 hex strings> | <5 ints>  -> validate-code ingresses-code router-code
-   cfrun <v1 v2 v3> | <45 string channels> | <10 typed channels> | <jwk oracle> | <redis oracle> | <fetch oracle>
+   cfrun <v1 v2 v3> | <49 string channels> | <14 typed channels> | <jwk oracle> | <redis oracle> | <fetch oracle>
          | <json endsession jwks> | <algs> | <acrs> | <locales>   -> outcome class
    string channel: "~" = not supplied, "-" = supplied empty, else hex; typed channel: "~" absent, "!" malformed, else int *)
 open Model
